@@ -1,7 +1,8 @@
 /-
-  C05 helper lemmas, part i: the degenerate configurations with an empty CompID.  Every message either engine writes then
-  carries an empty header value, the peer's validator refuses it before any callback, so nothing is ever delivered
-  (generic frame machinery of Lemmas/SessPool with the policy "no application delivery").
+  C05 helper lemmas, part i: the degenerate configurations with an empty CompID.  No message can then pass the CompID check
+  of the engine that receives it (`checkCompID` refuses an empty SenderCompID / TargetCompID whatever the validator
+  settings are), so no Logon is ever accepted and nothing is ever delivered (generic frame machinery of Lemmas/SessPool
+  with the policy "no application delivery").
 -/
 import Qfx.Lemmas.LinkC05h
 namespace Qfx.Link
@@ -28,19 +29,25 @@ instance noAppPolicy : Policy NoApp TS where
 
 theorem noApp_resetOK : ResetOK NoApp TS := ⟨(fun _ _ h => by cases h), fun _ => trivial⟩
 
-/-- a message with an empty value somewhere -/
-def Bad (im : InMsg) : Prop := ¬ NoEmpty im
+/-- a message that cannot pass the CompID check of an engine configured with `cfg` -/
+def Bad (cfg : Cfg) (im : InMsg) : Prop := ¬ CompOK cfg im
 
-theorem poolHyp_bad (cfg : Cfg) : PoolHyp NoApp TS Bad cfg :=
-  fun _ hm => ⟨hm, fun hg _ => absurd hg.valid hm, fun _ hv _ => absurd hv hm, (fun _ _ _ _ _ h => by cases h), Or.inl noApp_resetOK⟩
+theorem cbObs_admin_noApp (s' : Sess) (m : InMsg) (hk : kindOf m = "A") : NoApp (cbObs s' m) := by
+  intro sq t h
+  unfold cbObs at h
+  rw [hk] at h
+  simp [isAdminKind] at h
 
-theorem bad_toIn (cfg : Cfg) (m : OutMsg) (h : cfg.sender = "" ∨ cfg.target = "") : Bad (toIn cfg m) := by
-  intro hne
+theorem poolHyp_bad (cfg : Cfg) : PoolHyp NoApp TS (Bad cfg) cfg :=
+  fun m hm => ⟨hm, fun hg _ => absurd hg.comp hm, fun hk _ s' => cbObs_admin_noApp s' m hk, (fun _ hg _ _ _ _ => absurd hg.comp hm),
+    Or.inl noApp_resetOK⟩
+
+/-- with an empty CompID in its configuration an engine refuses every message -/
+theorem bad_any (cfg : Cfg) (h : cfg.sender = "" ∨ cfg.target = "") (im : InMsg) : Bad cfg im := by
+  intro hc
   rcases h with h | h
-  · have := hne (49, cfg.sender) (by rw [toIn_f]; simp)
-    rw [h] at this; simp at this
-  · have := hne (56, cfg.target) (by rw [toIn_f]; simp)
-    rw [h] at this; simp at this
+  · have := hc.2.2.2; rw [h] at this; simp at this
+  · have := hc.2.2.1; rw [h] at this; simp at this
 
 theorem deliveredSeqs_noApp (obs : List Obs) (h : ∀ o ∈ obs, NoApp o) : deliveredSeqs obs = [] := by
   induction obs with
@@ -54,42 +61,52 @@ theorem deliveredSeqs_noApp (obs : List Obs) (h : ∀ o ∈ obs, NoApp o) : deli
     | fromApp sq t => exact absurd rfl (ho sq t)
     | _ => simpa using this
 
-/-- nothing has been delivered and everything buffered or stashed is refused by the validator -/
+/-- nothing has been delivered and everything buffered or stashed is refused by the CompID check -/
 structure LInvD (l : LSt) : Prop where
   da : l.dlvA = []
   db : l.dlvB = []
-  pa : PoolInv Bad l.a
-  pb : PoolInv Bad l.b
+  pa : PoolInv (Bad l.a.cfg) l.a
+  pb : PoolInv (Bad l.b.cfg) l.b
 
-theorem step_bad (s : Sess) (e : Ev) (hp : PoolInv Bad s) (he : EvOK NoApp TS Bad s.cfg e) :
-    deliveredSeqs (step s e).2.1 = [] ∧ (step s e).1.cfg = s.cfg ∧ PoolInv Bad (step s e).1 := by
+theorem step_bad (s : Sess) (e : Ev) (hp : PoolInv (Bad s.cfg) s) (he : EvOK NoApp TS (Bad s.cfg) s.cfg e) :
+    deliveredSeqs (step s e).2.1 = [] ∧ (step s e).1.cfg = s.cfg ∧ PoolInv (Bad s.cfg) (step s e).1 := by
   obtain ⟨h1, _, h3, h4⟩ := step_good (N := NoApp) (S := TS) s e (poolHyp_bad _) (Or.inl noApp_resetOK) hp he
   exact ⟨deliveredSeqs_noApp _ h1, h3, h4⟩
 
-theorem LInvD_onSide {l : LSt} (h : LInvD l) (side : Side) (e : Ev) (he : ∀ cfg, EvOK NoApp TS Bad cfg e) :
+def sideCfg (l : LSt) : Side → Cfg
+  | .A => l.a.cfg
+  | .B => l.b.cfg
+
+theorem LInvD_onSide {l : LSt} (h : LInvD l) (side : Side) (e : Ev)
+    (he : EvOK NoApp TS (Bad (sideCfg l side)) (sideCfg l side) e) :
     LInvD (onSide l side e).1 ∧ (onSide l side e).1.a.cfg = l.a.cfg ∧ (onSide l side e).1.b.cfg = l.b.cfg := by
   cases side with
   | A =>
-    obtain ⟨h1, h2, h3⟩ := step_bad l.a e h.pa (he _)
+    obtain ⟨h1, h2, h3⟩ := step_bad l.a e h.pa he
     simp only [onSide, h1, List.map_nil, List.append_nil]
-    exact ⟨⟨h.da, h.db, h3, h.pb⟩, h2, trivial⟩
+    exact ⟨⟨h.da, h.db, by rw [h2]; exact h3, h.pb⟩, h2, trivial⟩
   | B =>
-    obtain ⟨h1, h2, h3⟩ := step_bad l.b e h.pb (he _)
+    obtain ⟨h1, h2, h3⟩ := step_bad l.b e h.pb he
     simp only [onSide, h1, List.map_nil, List.append_nil]
-    exact ⟨⟨h.da, h.db, h.pa, h3⟩, trivial, h2⟩
+    exact ⟨⟨h.da, h.db, h.pa, by rw [h2]; exact h3⟩, trivial, h2⟩
 
-theorem poolInv_restart (s : Sess) : PoolInv Bad (restartSess s) := ⟨(by intro m hm; cases hm), (by intro p hp; cases hp)⟩
+theorem poolInv_restart (s : Sess) : PoolInv (Bad (restartSess s).cfg) (restartSess s) :=
+  ⟨(by intro m hm; cases hm), (by intro p hp; cases hp)⟩
+
+theorem evOK_trivial (side : Side) (l : LSt) (e : Ev) (h : ∀ P cfg, EvOK NoApp TS P cfg e) :
+    EvOK NoApp TS (Bad (sideCfg l side)) (sideCfg l side) e := h _ _
 
 theorem LInvD_lstep {cfgA cfgB : Cfg} (hbad : (cfgA.sender = "" ∨ cfgA.target = "") ∧ (cfgB.sender = "" ∨ cfgB.target = ""))
     {l : LSt} (h : LInvD l) (hca : l.a.cfg = cfgA) (hcb : l.b.cfg = cfgB) (e : LEv) :
     LInvD (lstep l e).1 ∧ (lstep l e).1.a.cfg = cfgA ∧ (lstep l e).1.b.cfg = cfgB := by
   cases e with
   | connect =>
-    obtain ⟨k1, a1, b1⟩ := LInvD_onSide h .A .connect (fun _ => trivial)
-    obtain ⟨k2, a2, b2⟩ := LInvD_onSide k1 .B .connect (fun _ => trivial)
+    obtain ⟨k1, a1, b1⟩ := LInvD_onSide h .A .connect trivial
+    obtain ⟨k2, a2, b2⟩ := LInvD_onSide k1 .B .connect trivial
     exact ⟨k2, (a2.trans a1).trans hca, (b2.trans b1).trans hcb⟩
   | send side p =>
-    obtain ⟨k1, a1, b1⟩ := LInvD_onSide h side (.send { kind := "D", seq := 0, f := [(9000, p)] }) (fun _ => Or.inl noApp_resetOK)
+    obtain ⟨k1, a1, b1⟩ := LInvD_onSide h side (.send { kind := "D", seq := 0, f := [(9000, p)] })
+      (evOK_trivial side l _ (fun _ _ => Or.inl noApp_resetOK))
     simp only [lstep]
     split
     · cases side <;> exact ⟨⟨k1.da, k1.db, k1.pa, k1.pb⟩, a1.trans hca, b1.trans hcb⟩
@@ -103,7 +120,7 @@ theorem LInvD_lstep {cfgA cfgB : Cfg} (hbad : (cfgA.sender = "" ∨ cfgA.target 
         simp only [lstep, hq]
         have h1 : LInvD { l with b2a := rest, rcvA := noteRcv l.rcvA (toIn l.b.cfg m) } := ⟨h.da, h.db, h.pa, h.pb⟩
         obtain ⟨k1, a1, b1⟩ := LInvD_onSide h1 .A (.incomingMsg (some (toIn l.b.cfg m)))
-          (by intro _ x hx; cases hx; exact bad_toIn _ _ (by rw [hcb]; exact hbad.2))
+          (by intro x _; exact bad_any _ (by show l.a.cfg.sender = "" ∨ l.a.cfg.target = ""; rw [hca]; exact hbad.1) x)
         exact ⟨k1, a1.trans hca, b1.trans hcb⟩
     | B =>
       cases hq : l.a2b with
@@ -112,22 +129,22 @@ theorem LInvD_lstep {cfgA cfgB : Cfg} (hbad : (cfgA.sender = "" ∨ cfgA.target 
         simp only [lstep, hq]
         have h1 : LInvD { l with a2b := rest, rcvB := noteRcv l.rcvB (toIn l.a.cfg m) } := ⟨h.da, h.db, h.pa, h.pb⟩
         obtain ⟨k1, a1, b1⟩ := LInvD_onSide h1 .B (.incomingMsg (some (toIn l.a.cfg m)))
-          (by intro _ x hx; cases hx; exact bad_toIn _ _ (by rw [hca]; exact hbad.1))
+          (by intro x _; exact bad_any _ (by show l.b.cfg.sender = "" ∨ l.b.cfg.target = ""; rw [hcb]; exact hbad.2) x)
         exact ⟨k1, a1.trans hca, b1.trans hcb⟩
   | cut =>
     have h0 : LInvD { l with a2b := [], b2a := [] } := ⟨h.da, h.db, h.pa, h.pb⟩
-    obtain ⟨k1, a1, b1⟩ := LInvD_onSide h0 .A .disconnected (fun _ => trivial)
-    obtain ⟨k2, a2, b2⟩ := LInvD_onSide k1 .B .disconnected (fun _ => trivial)
+    obtain ⟨k1, a1, b1⟩ := LInvD_onSide h0 .A .disconnected trivial
+    obtain ⟨k2, a2, b2⟩ := LInvD_onSide k1 .B .disconnected trivial
     exact ⟨⟨k2.da, k2.db, k2.pa, k2.pb⟩, (a2.trans a1).trans hca, (b2.trans b1).trans hcb⟩
   | restart side =>
     cases side with
     | A => exact ⟨⟨h.da, h.db, poolInv_restart _, h.pb⟩, hca, hcb⟩
     | B => exact ⟨⟨h.da, h.db, h.pa, poolInv_restart _⟩, hca, hcb⟩
   | timer side ev =>
-    obtain ⟨k1, a1, b1⟩ := LInvD_onSide h side (.timeout ev) (fun _ => trivial)
+    obtain ⟨k1, a1, b1⟩ := LInvD_onSide h side (.timeout ev) (evOK_trivial side l _ (fun _ _ => trivial))
     exact ⟨k1, a1.trans hca, b1.trans hcb⟩
   | flush side =>
-    obtain ⟨k1, a1, b1⟩ := LInvD_onSide h side .flush (fun _ => trivial)
+    obtain ⟨k1, a1, b1⟩ := LInvD_onSide h side .flush (evOK_trivial side l _ (fun _ _ => trivial))
     exact ⟨k1, a1.trans hca, b1.trans hcb⟩
 
 theorem LInvD_run {cfgA cfgB : Cfg} (hbad : (cfgA.sender = "" ∨ cfgA.target = "") ∧ (cfgB.sender = "" ∨ cfgB.target = ""))
@@ -151,20 +168,37 @@ theorem bsName_ne_empty (n : Nat) : bsName n ≠ "" := by
   unfold bsName
   split <;> decide
 
-theorem validate_empty_payload (cfg : Cfg) (n : Int) (hs : cfg.sender ≠ "") (ht : cfg.target ≠ "") :
-    validate (toIn cfg (appMsg n "")) = some (noValue 9000) := by
-  have h1 : (bsName cfg.bs).isEmpty = false := (isEmpty_false_iff _).2 (bsName_ne_empty _)
-  have h2 : cfg.sender.isEmpty = false := (isEmpty_false_iff _).2 hs
-  have h3 : cfg.target.isEmpty = false := (isEmpty_false_iff _).2 ht
-  have h4 : (toString n).isEmpty = false := (isEmpty_false_iff _).2 (toString_int_ne_empty n)
-  have h5 : ("D" : String).isEmpty = false := by decide
-  have h6 : ("@0" : String).isEmpty = false := by decide
-  have h7 : ("" : String).isEmpty = true := by decide
+/-- the default validator with ValidateFieldsHaveValues on (its default) refuses an application message whose payload id
+    is empty: tag specified without a value, RefTagID 9000 -/
+theorem validate_empty_payload (rcfg cfg : Cfg) (n : Int) (hs : cfg.sender ≠ "") (ht : cfg.target ≠ "")
+    (happ : rcfg.validator.app = none) (hhv : rcfg.validator.settings.checkHaveValues = true) :
+    validate rcfg (toIn cfg (appMsg n "")) = some (noValue 9000) := by
+  have ne : ∀ v : String, v ≠ "" → (wireValue v).isEmpty = false := fun v h => wireValue_nonempty v ((isEmpty_false_iff _).2 h)
+  have h1 := ne _ (bsName_ne_empty cfg.bs)
+  have h2 := ne _ hs
+  have h3 := ne _ ht
+  have h4 := ne _ (toString_int_ne_empty n)
+  have h5 : (wireValue "D").isEmpty = false := ne _ (by decide)
+  have h6 : (wireValue "@0").isEmpty = false := ne _ (by decide)
+  have h7 : (wireValue "").isEmpty = true := by rfl
   have hd : dupF (appMsg n "") = [] := by simp [dupF, appMsg, Qfx.Link.get?_cons, Qfx.Link.get?_nil]
   have ho : origF (appMsg n "") = [] := by simp [origF, appMsg, Fields.has]
   have hr : restF (appMsg n "") = [(9000, "")] := by simp [restF, appMsg]
-  unfold validate
-  rw [toIn_f, hd, ho, hr]
-  simp only [List.nil_append, List.cons_append, List.find?_cons, h1, h2, h3, h4, h5, h6, h7, appMsg]
+  rw [validate_noDict rcfg _ happ, hdr_has35 _ _ (toIn_has35 cfg _)]
+  simp only [Bool.not_true, Bool.false_eq_true, if_false]
+  have hfields : (toPMsg rcfg.validator.tr (toIn cfg (appMsg n ""))).fields =
+      [tvOf (8, bsName cfg.bs), { tag := 9, value := [48] }, tvOf (35, "D"), tvOf (49, cfg.sender), tvOf (56, cfg.target),
+       tvOf (34, toString n), tvOf (52, "@0"), tvOf (9000, ""), { tag := 10, value := [48, 48, 48] }] := by
+    unfold toPMsg wireFields
+    rw [toIn_f, hd, ho, hr]
+    rfl
+  unfold Validate.validateFieldContent
+  rw [hfields, hhv]
+  simp only [Bool.not_true, Bool.false_and, Bool.false_eq_true, if_false]
+  have hh : ∀ t, t ∈ [8, 9, 35, 49, 56, 34, 52] → Validate.isHeaderTag t = true := by decide
+  simp only [Validate.fieldContentLoop, tvOf, Bool.true_and, h1, h2, h3, h4, h5, h6, h7, Bool.false_eq_true, if_false, if_true,
+    hh 8 (by decide), hh 9 (by decide), hh 35 (by decide), hh 49 (by decide), hh 56 (by decide), hh 34 (by decide), hh 52 (by decide),
+    show ([48] : Bytes).isEmpty = false from rfl]
+  rfl
 
 end Qfx.Link
